@@ -66,3 +66,19 @@ def where(body, bb=None, line=None):
     if line is None and bb is not None:
         line = body.blocks[bb].term.line
     return "%s:%s (%s)" % (body.file, line if line is not None else body.line, body.path)
+
+
+def arm_handler(sem, visits):
+    """the workspace function a message variant's arm delegates to (structural discovery:
+    the callee of the delegating return site of the entry point); falls back to the entry"""
+    root = [v for v in visits if v.parent is None][0]
+    targets = set()
+    for (bb, idx, kind, x) in sem.ret_sites(root.be):
+        if kind == "call" and bb in root.blocks:
+            b = sem.w.callee_body(x)
+            if b is not None:
+                targets.add(b.path)
+    for v in visits:
+        if v.parent is not None and v.parent[0] is root and v.body.path in targets and v.parent[1] in root.blocks:
+            return v
+    return root
